@@ -130,6 +130,24 @@ def run_case(case, ctx):
     v, cls, scale = make_input(rs, dt, op)
     if op in ("svt", "procrustes") and v.ndim == 1:
         v = v.reshape(-1, 1)
+    if op in ("svt", "procrustes") and rs.rand() < 0.25:
+        # unfoldings: much wider than tall (or the other way round)
+        r_, c_ = int(rs.randint(1, 4)), int(rs.randint(7, 21))
+        v = (rs.standard_normal((r_, c_) if rs.rand() < 0.7 else (c_, r_)) * scale).astype(dt)
+        cls = "signed"
+    if op == "unimodal" and rs.rand() < 0.25:
+        # columns whose best unimodal fit peaks at the very first (or last) row although the other end is higher: a slow decay
+        # followed by a single late spike, and its mirror image
+        n_ = int(rs.randint(4, 9))
+        c_ = 1 if v.ndim == 1 else v.shape[1]
+        base = np.sort(rs.uniform(5, 10, (n_, c_)), axis=0)[::-1].copy()
+        base[-2] = rs.uniform(-1, 1, c_)
+        base[-1] = base[0] + rs.uniform(0.1, 1.0, c_)
+        if rs.rand() < 0.4:
+            base = base[::-1].copy()
+        v = (base[:, 0] if v.ndim == 1 else base)
+        v = (v * scale).astype(dt)
+        cls = "edge-peak"
     via_dispatch = bool(rs.rand() < 0.5)
     nrm = float(np.max(np.abs(v))) if v.size else 0.0
     size = v.size
@@ -324,6 +342,17 @@ def run_case(case, ctx):
         refx = (U * np.maximum(s - param, 0)) @ Vt
         obj = lambda x: param * np.sum(np.linalg.svd(x, compute_uv=False)) + 0.5 * np.sum((x - vh) ** 2)
         comp = lambda r: refx + r.standard_normal(v.shape) * (nrm + 1) * 0.1
+        if rs.rand() < 0.25 and dt == "float64":
+            # complex matrices (robust PCA of complex data): singular values shrunk, singular vectors kept
+            z = (vh + 1j * rs.standard_normal(v.shape) * scale).astype(np.complex128)
+            got = np.asarray(f(z.copy()))
+            Uc, sc_, Vc = np.linalg.svd(z, full_matrices=False)
+            want = (Uc * np.maximum(sc_ - param, 0)) @ Vc
+            ctx.count("svt_complex_input")
+            if got.shape != want.shape or not np.allclose(got, want, rtol=1e-10, atol=1e-10 * (float(sc_[0]) + param + 1e-300)):
+                ctx.violation("C12:svt:optimal:complex", "singular-value thresholding of a complex %s matrix is not U max(S - t, 0) V^H: max dev %.3g" % (
+                    "x".join(map(str, z.shape)), float(np.max(np.abs(got - want))) if got.shape == want.shape else float("nan")), {"desc": desc, "v": z, "out": got})
+                return
     elif op == "procrustes":
         f = lambda a: P.procrustes(a)
         U, s, Vt = np.linalg.svd(vh, full_matrices=False)
